@@ -11,10 +11,16 @@
      popen   {env, pid, fuel, calls:[{timeout, at, ext?, obs?, oscalls?, rc?}]} `psutil.Popen.wait`, several
              calls on one object; ext = returncode stored by subprocess's own poll() just before the call;
              rc = {"v": returncode after the call} as observed on the implementation
+     waitc   {env, pid, timeout, start, fuel, costs:[rat…], obs?}  `wait_pid` with system calls that take time:
+             the k-th system call takes costs[k] (0 beyond the list); Spec clauses with 40 ms + 5·max(costs)
+     wprocs (second extension): procs[i].popen = the object is a psutil.Popen, procs[i].rc0 = {"v": its
+             subprocess returncode before the call}; oids = object identity of each element of `list`;
+             hashable = false: some element of the list cannot be hashed
    Every answer is {"model": …, "spec": …}: `spec` lists the Spec clauses violated by the model's
    observation and (when `obs` is supplied) by the implementation's observation. -/
 import PsutilModel.Base.Proto
 import PsutilModel.Model.C15Gen
+import PsutilModel.Model.C15R2
 import PsutilModel.Spec.C15
 open Lean Psutil Psutil.Proto Psutil.C15
 
@@ -111,6 +117,29 @@ def handleWait (j : Json) : R Json := do
     ("model", jObj [("out", jOutcome o), ("ret", jRat s.now), ("sleeps", jList jRat s.sleeps),
                     ("nwait", jNat (s.nWait - nwait0))]),
     ("spec", specPart (Spec.violations ask mobs clean ++ Spec.extraViolations ask mobs) implV)]
+
+def handleWaitC (j : Json) : R Json := do
+  let envJ ← field j "env"
+  let env ← asEnv envJ
+  let clean0 ← eintrFree envJ
+  let pid ← natF j "pid"
+  let timeout ← optRatF j "timeout"
+  let start ← ratF j "start"
+  let fuel ← natF j "fuel"
+  let costs ← listF asRat j "costs"
+  let cost : Nat → Rat := fun k => costs.getD k 0
+  let δ := costs.foldl (fun a b => if a ≤ b then b else a) 0
+  let (o, s) := waitPidC cfg cost env pid timeout fuel start 0 0
+  let ask : Spec.Ask := ⟨env, pid, timeout, start⟩
+  let clean := clean0 && decide (0 < pid) && !(negative timeout)
+  let mobs : Spec.Obs := ⟨o, s.now, s.sleeps⟩
+  let implV ← (optF asObs j "obs")
+  let implV := implV.map fun ob => Spec.violationsC ask ob δ clean
+  return jObj [
+    ("model", jObj [("out", jOutcome o), ("ret", jRat s.now), ("sleeps", jList jRat s.sleeps),
+                    ("nwait", jNat s.nWait), ("nsys", jNat s.nSys)]),
+    ("spec", jObj [("model_violations", jStrs (Spec.violationsC ask mobs δ clean)),
+                   ("impl_violations", jOpt jStrs implV), ("delta", jRat δ)])]
 
 structure PCall where
   timeout : Option Rat
@@ -243,11 +272,15 @@ structure PSpec where
   env : Env
   prewait : Bool        -- `proc.wait(0)` was called on the object just before `wait_procs`
   clean : Bool          -- no waitpid call on this PID is interrupted
+  popen : Bool          -- the object is a `psutil.Popen`
+  rc0 : Option Int      -- … whose subprocess returncode was this before the call (poll() of subprocess)
 
 def asPSpec (j : Json) : R PSpec := do
   let envJ ← field j "env"
   pure { pid := ← natF j "pid", env := ← asEnv envJ,
-         prewait := (← optF asBool j "prewait").getD false, clean := ← eintrFree envJ }
+         prewait := (← optF asBool j "prewait").getD false, clean := ← eintrFree envJ,
+         popen := (← optF asBool j "popen").getD false,
+         rc0 := ((← optF asVal j "rc0").getD none) }
 
 def jWPErr : WPErr → Json
   | .typeError => jObj [("kind", "exc"), ("exc", "TypeError")]
@@ -295,33 +328,49 @@ def handleWProcs (j : Json) : R Json := do
   let envOf : Nat → Env := fun pid => match ps.find? (·.pid == pid) with
     | some p => p.env
     | none => dflt
-  let objs : Nat → PObj := fun pid => match ps.find? (·.pid == pid) with
+  -- the object behind each pid, after an optional `proc.wait(0)` made just before the call
+  let qOf : Nat → PopenObj := fun pid => match ps.find? (·.pid == pid) with
     | some p =>
-      if p.prewait then (procWait cfg p.env (some 0) fuel start ⟨pid, none, 0, none⟩).obj
-      else ⟨pid, none, 0, none⟩
-    | none => ⟨pid, none, 0, none⟩
+      let q0 : PopenObj := ⟨⟨pid, none, 0, none⟩, if p.popen then p.rc0 else none⟩
+      if p.prewait then
+        (if p.popen then (popenWait cfg p.env (some 0) fuel start q0).obj
+         else ⟨(procWait cfg p.env (some 0) fuel start q0.proc).obj, none⟩)
+      else q0
+    | none => ⟨⟨pid, none, 0, none⟩, none⟩
+  let isPopen : Nat → Bool := fun pid => match ps.find? (·.pid == pid) with
+    | some p => p.popen
+    | none => false
+  let objs : Nat → PObj := fun pid => (qOf pid).proc
+  let sub0 : Nat → Option (Option Int) := fun pid => cond (isPopen pid) (some (qOf pid).subRc) none
   let w0 : WP := ⟨start, objs, [], [], [], []⟩
+  let m0 : WPM := ⟨w0, sub0⟩
+  let hashable := (← optF asBool j "hashable").getD true
+  let oids := (← optF (asList asNat) j "oids").getD (lst.map fun _ => 0)
+  let items : List Item := (lst.zip oids).map fun x => ⟨x.1, x.2⟩
   let ask : Spec.WPAsk := ⟨envOf, lst, timeout, start, hasCb⟩
   let implV ← optF asWPObs j "obs"
   let cleanOf : Nat → Bool := fun pid => match ps.find? (·.pid == pid) with
     | some p => p.clean
     | none => false
   let implV := implV.map fun ob => Spec.wpViolations ask ob cleanOf
-  let refusal := Spec.wpRefusal timeout (cb != .absent) (cb == .callable)
+  let refusal := Spec.wpRefusalM timeout hashable (cb != .absent) (cb == .callable)
   let specJ (mV : List String) : Json :=
     jObj [("model_violations", jStrs mV), ("impl_violations", jOpt jStrs implV), ("refusal", jRefusal refusal)]
-  match waitProcsFront cfg envOf lst timeout cb (orderOf flat) fuel w0 with
+  match waitProcsFrontM cfg envOf lst hashable timeout cb (orderOf flat) fuel m0 with
   | .error o =>
     return jObj [("model", jObj [("kind", "raised"), ("out", jWPErr o)]),
                  ("spec", specJ [])]
-  | .ok (w, alive) =>
+  | .ok (m, alive) =>
+    let w := m.w
     let pids := dedup lst
     let mobs : Spec.WPObs := ⟨w.gone, alive, fun p => (w.objs p).returncode, w.cbLog, w.now⟩
     return jObj [
       ("model", jObj [("kind", "ok"), ("gone", jList jNat w.gone), ("alive", jList jNat alive),
         ("returncodes", jList (fun p => Json.arr #[jNat p, jOptVal (w.objs p).returncode]) pids),
         ("cbLog", jList jNat w.cbLog), ("ret", jRat w.now), ("sleeps", jList jRat w.sleeps),
-        ("calls", jList (fun c => Json.arr #[jNat c.1, jRat c.2]) w.calls)]),
+        ("calls", jList (fun c => Json.arr #[jNat c.1, jRat c.2]) w.calls),
+        ("subs", jList (fun p => Json.arr #[jNat p, jOptVal (m.sub p)]) (pids.filter isPopen)),
+        ("survivors", jList (fun (x : Item) => Json.arr #[jNat x.pid, jNat x.oid]) (setOf items))]),
       ("spec", specJ (Spec.wpViolations ask mobs cleanOf))]
 
 def handle (_ : Unit) (j : Json) : R (Unit × Json) := do
@@ -340,6 +389,7 @@ def handle (_ : Unit) (j : Json) : R (Unit × Json) := do
     let hi ← natF j "hi"
     return ((), jList (fun i => jOutcome (decode (lo + i))) (List.range (hi - lo)))
   else if op == "wait" then return ((), ← handleWait j)
+  else if op == "waitc" then return ((), ← handleWaitC j)
   else if op == "pwait" then return ((), ← handlePWait j)
   else if op == "wprocs" then return ((), ← handleWProcs j)
   else if op == "popen" then return ((), ← handlePopen j)
